@@ -1,5 +1,190 @@
-(* C03 — placeholder statements, replaced as the proofs land. *)
-From PM Require Import Lib.Bytes Lib.PyStr Http.Url Http.Chunk Http.Parser.
-Theorem C03_placeholder : forall t, state (new_parser t) = INITIALIZED.
-Proof. reflexivity. Qed.
-Print Assumptions C03_placeholder.
+(* C03 — incremental HTTP parsing does not depend on how the input is segmented.
+   Statements only; the proofs are in Http/ChunkFacts.v and Http/ParserFacts.v.
+   Models: Http/Chunk.v (ChunkParser), Http/Parser.v (HttpParser), Http/Url.v. *)
+From PM Require Import Lib.Bytes Lib.PyStr Http.Url Http.Chunk Http.Parser Http.ChunkFacts Http.ParserFacts.
+From Coq Require Import ZArith.
+
+(* ===================================================================================== *)
+(* ChunkParser on its own                                                                 *)
+
+(* Feeding a ++ b in one call equals feeding a, then b: same decoder state (state, decoded body,
+   partial chunk, expected size), same remainder, same exception if any.  For every decoder state
+   satisfying the invariant of reachable states (chunk_inv: in WAITING_FOR_DATA the expected size is
+   known and exceeds what has been received), in particular for a new decoder. *)
+Theorem C03_chunk_two_piece : forall c a b, chunk_inv c ->
+  chunk_parse c (a ++ b) =
+  (do '(ra, c1) <- chunk_parse c a; do '(rb, c2) <- chunk_parse c1 b; Ok (ra ++ rb, c2)).
+Proof. exact chunk_two_piece. Qed.
+Print Assumptions C03_chunk_two_piece.
+
+(* Any number of pieces, cut anywhere, empty pieces allowed, down to one byte per piece. *)
+Theorem C03_chunk_segmentation : forall pieces c, chunk_inv c ->
+  chunk_parse_pieces c pieces = chunk_parse c (concat pieces).
+Proof. exact chunk_segmentation. Qed.
+Print Assumptions C03_chunk_segmentation.
+
+(* The invariant holds initially and is kept by every call. *)
+Theorem C03_chunk_inv_reachable :
+  chunk_inv new_chunkp /\
+  (forall c raw r c', chunk_inv c -> chunk_parse c raw = Ok (r, c') -> chunk_inv c').
+Proof. exact (conj chunk_inv_new chunk_parse_inv). Qed.
+Print Assumptions C03_chunk_inv_reachable.
+
+(* For every valid chunked stream s (any spelling of the size lines: hex case, leading zeros,
+   extensions; any trailer lines) followed by ANY tail: the decoder completes, the decoded body is
+   the concatenation of the chunk data and the tail comes back untouched; on every PROPER prefix
+   of the stream the decoder is Ok, returns no remainder and is NOT complete. *)
+Theorem C03_chunk_complete_exactly_at_end : forall s, stream_ok s ->
+  (forall tail, chunk_parse new_chunkp (render_stream s ++ tail) = Ok (tail, complete_state (stream_body s))) /\
+  (forall q r, render_stream s = q ++ r -> r <> [] ->
+     exists c1, chunk_parse new_chunkp q = Ok ([], c1) /\ cst c1 <> CCOMPLETE).
+Proof. exact chunk_complete_exactly_at_end. Qed.
+Print Assumptions C03_chunk_complete_exactly_at_end.
+
+(* ===================================================================================== *)
+(* HttpParser                                                                              *)
+
+(* [framed p] is false exactly for the class the property excludes (see C03_framed_exact):
+   a close-delimited response that received at least one byte after its header block. *)
+
+(* Two pieces: if the whole feed ends in a framed state p2, then feeding a and then b succeeds
+   and yields the SAME parser record p2 (every attribute: state, start-line fields, headers,
+   body, chunk decoder, buffer = unconsumed remainder, total_size, flags). *)
+Theorem C03_two_piece : forall p a b p2, parser_inv p ->
+  parse p (a ++ b) = Ok p2 -> framed p2 = true ->
+  exists p1, parse p a = Ok p1 /\ parse p1 b = Ok p2.
+Proof. exact two_piece. Qed.
+Print Assumptions C03_two_piece.
+
+(* The same as one equation that also covers exceptions: whatever the whole feed returns (a framed
+   parser or an exception), the two-piece feed returns the same (the exception is raised by the
+   piece in which the offending line/size/header is completed).  Any allowed_url_schemes. *)
+Theorem C03_two_piece_full : forall al p a b R, parser_inv p ->
+  parse_with al p (a ++ b) = R -> framedP R ->
+  (do p1 <- parse_with al p a; parse_with al p1 b) = R.
+Proof. exact two_piece_gen. Qed.
+Print Assumptions C03_two_piece_full.
+
+(* Converse: when both pieces succeed, the whole feed succeeds with the same record, unless the
+   whole feed itself ends in the excluded class. *)
+Theorem C03_two_piece_converse : forall al p a b p1 p2, parser_inv p ->
+  parse_with al p a = Ok p1 -> parse_with al p1 b = Ok p2 ->
+  framedP (parse_with al p (a ++ b)) -> parse_with al p (a ++ b) = Ok p2.
+Proof. exact two_piece_converse. Qed.
+Print Assumptions C03_two_piece_converse.
+
+(* n pieces from a new parser (request or response), cut anywhere, empty pieces allowed. *)
+Theorem C03_segmentation : forall t segs p,
+  parse (new_parser t) (concat segs) = Ok p -> framed p = true ->
+  parse_pieces (new_parser t) segs = Ok p.
+Proof. exact segmentation. Qed.
+Print Assumptions C03_segmentation.
+
+Theorem C03_segmentation_full : forall al pieces p R, parser_inv p ->
+  parse_with al p (concat pieces) = R -> framedP R -> parse_pieces_with al p pieces = R.
+Proof. exact segmentation_gen. Qed.
+Print Assumptions C03_segmentation_full.
+
+(* The invariants (value ranges, content-length bookkeeping, chunk decoder invariant, no empty
+   buffer; close-delimited characterisation; nothing carried in [buffer] during the body) hold for a
+   new parser and are kept by every parse call. *)
+Theorem C03_parser_inv_reachable :
+  (forall t, reachable_inv (new_parser t)) /\
+  (forall al p raw p', reachable_inv p -> parse_with al p raw = Ok p' -> reachable_inv p').
+Proof. exact (conj reachable_inv_new parse_with_reachable_inv). Qed.
+Print Assumptions C03_parser_inv_reachable.
+
+(* What [framed] excludes, on reachable states: the parser is in RCVING_BODY for a RESPONSE whose
+   header block contained no content-length header and no chunked transfer-encoding — i.e. a
+   close-delimited message that was followed by at least one byte.  Nothing else is excluded. *)
+Theorem C03_framed_exact : forall p, reachable_inv p ->
+  (framed p = false <->
+   state p = RCVING_BODY /\ is_request (ty p) = false /\ has_header p CONTENT_LENGTH = false /\
+   content_expected p = false /\ is_chunked_encoded p = false).
+Proof. exact unframed_iff_close_delimited. Qed.
+Print Assumptions C03_framed_exact.
+
+(* For every message m of the abstract grammar (ParserFacts.message: request line whose target
+   Url.from_bytes accepts, or status line with or without reason; any headers "name: value";
+   framing = Content-Length n with an n-byte body (n = 0 included) | chunked stream as above |
+   none) and every tail (tail = [] for a response without framing): the parser is COMPLETE with
+   exactly the fields of m ([expected]: method/url/version/host/port/path or version/code/reason,
+   header dictionary in order with lower-cased keys, decoded body, total_size) and
+   buffer = tail; on every PROPER prefix of the message it is Ok and NOT complete. *)
+Theorem C03_complete_exactly_at_end : forall al m, message_ok al m ->
+  (forall tail, tail_ok m tail ->
+     parse_with al (new_parser (msg_type m)) (render m ++ tail) = Ok (expected m tail)) /\
+  (forall q r, render m = q ++ r -> r <> [] ->
+     exists p1, parse_with al (new_parser (msg_type m)) q = Ok p1 /\ state p1 <> COMPLETE).
+Proof. exact complete_exactly_at_end. Qed.
+Print Assumptions C03_complete_exactly_at_end.
+
+(* the fields of [expected] spelled out *)
+Theorem C03_expected_fields : forall m tail,
+  let p := expected m tail in
+  state p = COMPLETE /\ buffer p = optb tail /\ total_size p = len (render m ++ tail) /\
+  headers p = add_all None (all_hdrs m) /\
+  body p = match m_framing m with
+           | FNone => None | FLength _ _ bd => optb bd | FChunked _ _ s => Some (stream_body s) end /\
+  match m_start m with
+  | ReqLine mt tg v u =>
+      let tn := bytes_eqb mt CONNECT in
+      method p = Some mt /\ purl p = Some u /\ version p = Some v /\ is_https_tunnel p = tn /\
+      (host p, port p, path p) = line_attributes tn u /\ code p = None /\ reason p = None
+  | StatusLine v c rs =>
+      version p = Some v /\ code p = Some c /\ reason p = rs /\ method p = None /\
+      host p = None /\ port p = None /\ path p = None
+  end.
+Proof. exact expected_fields. Qed.
+Print Assumptions C03_expected_fields.
+
+(* The header dictionary of [expected] in closed form: insertion order kept, keys lower-cased, a
+   repeated name replaces the earlier entry in place (Python dict semantics). *)
+Theorem C03_header_dict : forall hs,
+  add_all None hs = match hs with [] => None | _ => Some (fold_left hd_add hs []) end.
+Proof. exact add_all_spec. Qed.
+Print Assumptions C03_header_dict.
+
+(* Every message of the grammar ends in a framed state, so the segmentation theorems apply to it. *)
+Theorem C03_framed_render : forall m tail, framed (expected m tail) = true.
+Proof. exact framed_expected. Qed.
+Print Assumptions C03_framed_render.
+
+(* No result of either parser is an artefact of the fuel of the Gallina loops. *)
+Theorem C03_never_out_of_fuel :
+  (forall c raw, chunk_inv c -> chunk_parse c raw <> Err OutOfFuel) /\
+  (forall al p raw, parser_inv p -> parse_with al p raw <> Err OutOfFuel).
+Proof. exact (conj chunk_parse_never_out_of_fuel parse_with_never_out_of_fuel). Qed.
+Print Assumptions C03_never_out_of_fuel.
+
+(* Reused by other properties: a COMPLETE parser only accumulates (pipelined bytes stay in buffer);
+   total_size counts every byte fed. *)
+Theorem C03_complete_absorbs : forall al p raw, parser_inv p -> state p = COMPLETE ->
+  parse_with al p raw = Ok (set_buffer_size p (optb (bufb p ++ raw)) (total_size p + len raw)).
+Proof. exact parse_with_complete_absorbs. Qed.
+Print Assumptions C03_complete_absorbs.
+
+Theorem C03_total_size : forall al p raw p', parser_inv p -> parse_with al p raw = Ok p' ->
+  total_size p' = total_size p + len raw.
+Proof. exact parse_with_total_size. Qed.
+Print Assumptions C03_total_size.
+
+(* ===================================================================================== *)
+(* non-vacuity: a chunked POST in absolute form (3 chunks, upper-case hex, leading zeros, two
+   chunk extensions, one trailer, a duplicated header in different case) satisfies message_ok;
+   followed by a 17-byte tail and cut into single bytes it is parsed (by evaluation) to a framed,
+   COMPLETE parser with the decoded body and the tail as remainder, equal to the whole feed. *)
+Example C03_nonvacuous :
+  message_ok DEFAULT_ALLOWED_URL_SCHEMES example_msg /\ length example_tail = 17%nat /\
+  let raw := render example_msg ++ example_tail in
+  match parse_pieces (new_parser REQUEST_PARSER) (map (fun x => [x]) raw),
+        parse (new_parser REQUEST_PARSER) raw with
+  | Ok p, Ok w =>
+      framed p && (state p =? COMPLETE) && option_eqb bytes_eqb (buffer p) (Some example_tail) &&
+      option_eqb bytes_eqb (body p) (Some (bs "hello0123456789 chunked!!!")) && parser_obs_eqb p w
+  | _, _ => false
+  end = true.
+Proof.
+  split; [exact example_msg_ok|]. split; [reflexivity|]. vm_compute. reflexivity.
+Qed.
+Print Assumptions C03_nonvacuous.
